@@ -20,6 +20,7 @@ META = {
         "R11.2": "WithOneOverLength forwards (genome, rng) once to WithRate::new(rate).mutate",
         "R11.3": "UMAD: empty branch shape; main pass into_iter.flat_map([old,new]).flatten.collect; gene sources",
         "R11.4": "panic-site audit over the mutators (unreachable! closures take Infallible; random_bool rate proviso)",
+        "R11.6": "genome plumbing the mutators rely on: Linear::size = length of the gene vector, IntoIterator = the gene vector's own iterator (rules shared with C10 R10.6)",
         "R11.5": "draw wiring behind the degenerate-rate corollaries (strict draw < rate; add/del/del_new roles) - rules shared with C12",
     },
     "trusted_base": ["std iterator adaptors map/flat_map/flatten/collect preserve order; FromIterator impls of Vec/Bitstring/Vector/Plushy collect in order (C18 R18.1 checks the workspace's own)", "uecfacts driver + uecheck rule engine"],
@@ -32,6 +33,8 @@ UM = rules_c12.UM
 
 
 def check(ctx):
+    from . import rules_c10
+    rules_c10.check_linear_impls(rules_c12._Only(ctx, {"R10.6": "R11.6"}))
     rules_c12.check_with_rate(ctx, "R11.1", None)
     rules_c12.check_one_over_length(ctx, "R11.2", None)
     f, main, empty = rules_c12.umad_closure(ctx)
